@@ -116,6 +116,28 @@ PROPS = {
             'is outside the property (limits are fixed per affinity name: aff_limit)',
         ],
     },
+    'C07': {
+        'contract_modules': ['scheduler_core', 'scheduler_cell', 'scheduler_c04', 'scheduler_c07'],
+        'functions': SCHED_CORE + SCHED_CELL + [S + 'Node.check_app_affinity_limit_up', S + 'Cell.add_app'],
+        'includes': ['C03', 'C04'],
+        'replay': 'scheduler.py',
+        'assumptions': SCHED_ASSUME + [
+            'decided for one walk of one queue (Cell._find_placements = one partition\'s allocation in one cycle): an '
+            'instance on an up member server when the walk starts, not blacklisted and not over its utilisation cap, '
+            'is on that server when the walk ends unless an instance strictly ahead of it gained a placement during '
+            'the walk. The pre-passes of the cycle (server gone, retention expired, blacklisted, invalidated identity) '
+            'are the exemptions the statement lists and are decided under C08/C05; the composition over the '
+            'partitions of one cycle is not machine-checked (walks of different partitions touch disjoint instances)',
+            'clauses tagged C03 (standing placements are valid; only visited instances or remembered victims changed '
+            'server) and C04 (counter deltas, limits, tree_wf, limits_shared with limits >= 0) are hypotheses here and '
+            'are discharged by ./check C03 and ./check C04; the standing clause is violated by the known finding '
+            'Cell.add_app#ensures[standing] (an instance moved to another partition keeps its server) and such an '
+            'instance can then be displaced for nobody - reported as KNOWN-FINDING for C07 as well',
+            'lemma given to the solver, not proved by it: a fold (sum over the `evicted` map) of non-negative terms '
+            'is non-negative (pend_demand, pend_count); demand vectors are non-negative (axiom demand-nonneg)',
+            'lease renewal (Application.renew) is never set (O1), so the "failing a lease renewal" exemption is vacuous',
+        ],
+    },
     'C05': {
         'contract_modules': ['scheduler_core', 'scheduler_cell'],
         'functions': SCHED_CORE + SCHED_CELL + [S + x for x in (
